@@ -48,9 +48,10 @@ FIXTURES = [
 EPSV = 1e-9
 
 
-def deps(t):
+def deps(t, skip=None):
     """input fields a term depends on: set of (param index, field path); places are not searched for
-    bare parameters (a load of c.r depends on c.r, not on all of c)"""
+    bare parameters (a load of c.r depends on c.r, not on all of c); sub-terms for which `skip` holds are not
+    entered (used to tell the line's direction apart from its distance to the centre)"""
     out = set()
 
     def place(pl):
@@ -78,6 +79,8 @@ def deps(t):
             return
         h = s[0]
         if h in ("mem", "after", "mphi", "store", "m0"):
+            return
+        if skip is not None and skip(s):
             return
         if h == "load":
             place(s[2])
@@ -400,10 +403,32 @@ def check(col, prog, tier, profile, fixture=None):
             col.violation("G1", "%s|shape" % fk(b), b.loc(), "cannot read the returned variant: %s" % tstr(ret)[:200])
             continue
         var = ret[1][3]
+        def is_distance(s_):
+            return (s_[0] == "call" and str(s_[1]).endswith("Line::dist")) or _is_inline_dist(s_, LA, LB, LC, PX, PY, CC)
+
+        def known_zero_coeff(fld):
+            """the path has tested l.<fld> == 0.0: the point need not (cannot usefully) depend on it"""
+            for f in st.facts:
+                t_ = f[1]
+                if f[0] == "eq" and isinstance(t_, tuple) and t_ and t_[0] == "fcmp" and t_[1] in ("Eq", "Ne"):
+                    sides = (t_[2], t_[3])
+                    isfld = lambda x: x[0] == "load" and x[2][0] == "field" and x[2][2] == fld and x[2][1][0] == "deref" and x[2][1][1][0] == "param" and x[2][1][1][1] == 2
+                    iszero = lambda x: x[0] == "fconst" and x[1] == 0
+                    if (isfld(sides[0]) and iszero(sides[1])) or (isfld(sides[1]) and iszero(sides[0])):
+                        if (t_[1] == "Eq") == bool(f[2]):
+                            return True
+            return False
+
         for k, p in enumerate(ret[2]):
             d = deps(p)
-            need = [("centre", 1, (CC,)), ("line.a", 2, (LA,)), ("line.b", 2, (LB,))]
+            # the direction of the line must reach the point other than through its distance to the centre (a point built
+            # from the distance and the offset c alone sits on a line of the wrong orientation or sign)
+            dn = deps(p, skip=is_distance)
+            need = [("centre", 1, (CC,))]
             miss = [nm for nm, prm, path in need if not has(d, prm, path)]
+            for nm, fld in (("line.a", LA), ("line.b", LB)):
+                if not has(dn, 2, (fld,)) and not known_zero_coeff(fld):
+                    miss.append(nm + " (other than through the distance)")
             if not (has(d, 1, (CR,)) or (has(d, 2, ()) and has(d, 1, (CC,)))):
                 miss.append("radius or distance")
             # centre: both coordinates (a dependence on c.c covers both)
